@@ -35,11 +35,14 @@ pub struct DropPlan {
     pub input_len: usize,
     /// plain Popen: which streams are piped
     pub pipes: [bool; 3],
+    /// the command (or pipeline) actually run is a clone() of the configured one
+    #[serde(default)]
+    pub via_clone: bool,
 }
 
 impl Default for DropPlan {
     fn default() -> Self {
-        DropPlan { owner: Owner::Popen, detached: false, consume: None, progs: vec![], input_len: 0, pipes: [false; 3] }
+        DropPlan { owner: Owner::Popen, detached: false, consume: None, progs: vec![], input_len: 0, pipes: [false; 3], via_clone: false }
     }
 }
 
@@ -93,6 +96,7 @@ pub fn generate(rng: &mut Rng, plan: &mut Plan, _index: u64) {
         Owner::PipeCapture,
     ]);
     d.detached = rng.chance(1, 5);
+    d.via_clone = rng.chance(1, 4);
     d.consume = match rng.below(4) {
         0 => Some(0),
         1 => Some(1 + rng.below(5000) as usize),
@@ -195,11 +199,19 @@ pub fn run(_plan: &Plan, d: &DropPlan) -> FamOut {
         if d.detached {
             e = e.detached();
         }
+        if d.via_clone {
+            e = e.clone();
+        }
         e
     };
     let pipeline = || {
         let cmds: Vec<Exec> = (0..n).map(exec).collect();
-        Pipeline::from_exec_iter(cmds)
+        let p = Pipeline::from_exec_iter(cmds);
+        if d.via_clone {
+            p.clone()
+        } else {
+            p
+        }
     };
     let owner = format!("{:?}", d.owner);
     let input = crate::fam_comm::input_bytes(d.input_len, false);
